@@ -1084,7 +1084,8 @@ pub fn gen_cli_run(seed: u64, corpus: &[CorpusDoc], faults: bool) -> CliRun {
             0 => Fault::InputAbsent,
             1 => Fault::InputIsDir,
             2 => Fault::InputEio { k: rng.range(1, 2) as u32 },
-            3 | 4 => Fault::InputTruncated { at: rng.below(len.max(1)) },
+            // cut inside the document: losing only the trailing white space leaves a valid document
+            3 | 4 => Fault::InputTruncated { at: rng.below(doc.text.trim_end().len().max(1)) },
             5 => Fault::InputBadUtf8 { at: rng.below(len.max(1)) },
             6 => Fault::InputEmpty,
             7 => Fault::InputNotSchema,
